@@ -17,6 +17,8 @@ mod c08;
 mod ind;
 mod c15;
 mod c14;
+mod wb;
+mod c02;
 
 use common::*;
 use std::path::PathBuf;
@@ -52,6 +54,7 @@ fn main() {
         "c08" => c08::run(&mut out, tier, seed, replay),
         "c15" => c15::run(&mut out, tier, seed, replay),
         "c14" => c14::run(&mut out, tier, seed, replay),
+        "c02" => c02::run(&mut out, tier, seed, replay),
         _ => {
             eprintln!("unknown property {}", prop);
             std::process::exit(2);
